@@ -67,6 +67,63 @@ def decorate(c, rng):
                         x.params[p] = rng.choice(["1", "a b", "x,y", "http://u"])
 
 
+EDITS = ["pop", "popitem", "clear", "del", "setitem", "add", "setdefault", "update", "pop-missing", "del-attr"]
+
+
+def canon_result(x):
+    """the result of a mapping call, without object addresses"""
+    if x is None:
+        return None
+    if isinstance(x, tuple):
+        return [canon_result(y) for y in x]
+    if isinstance(x, list):
+        return [canon_result(y) for y in x]
+    if hasattr(x, "to_ical"):
+        return T.obs_value(x)
+    return str(x)
+
+
+def apply_edit(edit, comp, rstate):
+    """one mapping / API edit on a component, deterministic given the PRNG state; returns the call's result"""
+    import random
+    from icalendar.prop import vText
+    r = random.Random()
+    r.setstate(rstate)
+    keys = list(comp.keys())
+    k = r.choice(keys) if keys else "SUMMARY"
+    try:
+        if edit == "pop":
+            return canon_result(comp.pop(k, None))
+        if edit == "popitem":
+            return canon_result(comp.popitem()) if keys else None
+        if edit == "clear":
+            return comp.clear()
+        if edit == "del":
+            if keys:
+                del comp[k]
+            return None
+        if edit == "setitem":
+            comp[k.lower()] = vText("replaced")
+            return None
+        if edit == "add":
+            comp.add("x-added", "v")
+            return None
+        if edit == "setdefault":
+            return canon_result(comp.setdefault("X-DEF", vText("d")))
+        if edit == "update":
+            comp.update({"x-up": vText("u"), "Summary": vText("s")})
+            return None
+        if edit == "pop-missing":
+            return canon_result(comp.pop("X-NOT-THERE", None))
+        if edit == "del-attr":
+            if hasattr(type(comp), "DTEND") and "DTEND" in comp:
+                del comp.DTEND
+            return None
+    except Exception as e:  # noqa: BLE001
+        return "raised " + type(e).__name__
+    return None
+
+
 def balanced(text, comp):
     """BEGIN/END lines of the output nest properly and denote the component tree"""
     stack, roots = [], []
@@ -114,6 +171,24 @@ def run(ctx, res):
             res.fail("C10 determinism: serialising twice gives different bytes", s1[:500])
         if before != after:
             res.fail("C10 purity: the tree is observably changed by to_ical", s1[:500], observed=after, expected=before)
+        # no hidden state: a tree that has been serialised behaves, under any further edit, like a twin that never was
+        twin = copy.deepcopy(t)
+        T.impl_ser(t)
+        edit = rng.choice(EDITS)
+        targets_a, targets_b = c20.py_preorder(t), c20.py_preorder(twin)
+        j = rng.randrange(len(targets_a))
+        ra, rb = apply_edit(edit, targets_a[j], rng.getstate()), apply_edit(edit, targets_b[j], rng.getstate())
+        sa, sb = T.impl_ser(t), T.impl_ser(twin)
+        res.dist("edit:" + edit)
+        if sa != sb or ra != rb:
+            res.fail("C10 purity: after the same further edit (%s) a tree that had been serialised before differs from a twin "
+                     "that had not" % edit, {"tree": s1[:500], "edit": edit}, observed=[str(ra)[:100], str(sa)[:300]],
+                     expected=[str(rb)[:100], str(sb)[:300]])
+        t = copy.deepcopy(twin)      # continue with the edited tree
+        s1 = T.impl_ser(t)
+        if not isinstance(s1, str):
+            continue
+        before = T.obs_comp(t)
         u = shuffled_copy(t, rng)
         su = T.impl_ser(u)
         if su != s1:
